@@ -40,6 +40,7 @@ def body(data, hist):
 
     def pick(seq, label):
         return seq[data.draw(st.integers(0, len(seq) - 1), label=label)]
+    pair_ = None
     if data.draw(st.integers(0, 2), label='same_commit_pair') == 0:
         # a development branch that was just opened from the previous one:
         # two adjacent destinations at the same commit, so that the later
@@ -57,10 +58,16 @@ def body(data, hist):
                 hist.apply({'op': 'drain'})
                 if new_ in w.heads():
                     hist.flags.add('c15_same_commit_pair')
+                    pair_ = (b_, new_)
     dests = sorted(n for n in w.heads() if is_dest(n) and
                    not n.startswith('hotfix/'))
     # target PR on a destination that has later targets
     first = [d for d in dests if d != w.chain[-1]] or dests
+    if pair_:
+        # ... and that lies below the pair, so that both are targets
+        below_ = [n for n in w.chain[:w.chain.index(pair_[0])]
+                  if n in w.heads()]
+        first = below_ or first
     dstA = pick(first, 'dstA')
     hist.apply({'op': 'open_pr', 'src': 'bugfix/TEST-1-f1', 'dst': dstA,
                 'author': AUTHOR, 'base_back': pick((0, 0, 1), 'bb')})
@@ -80,6 +87,16 @@ def body(data, hist):
         hist.apply({'op': 'approve', 'pr': b, 'user': AUTHOR2})
         hist.apply({'op': 'pr_event', 'pr': b})
     n = data.draw(st.integers(2, 8), label='n')
+    short_ = False
+    if pair_ and data.draw(st.integers(0, 1), label='pair_direct'):
+        # manual work directly on the integration branch that is a plain
+        # fast-forward of the previous one, then the command
+        hist.apply({'op': 'manual', 'pr': A, 'w': 0, 'kind': 'commit',
+                    'wname': 'w/%s/%s' % (pair_[1].split('/')[1],
+                                          w.prs[A]['src'])})
+        hist.flags.add('c15_manual_on_fast_forward_w')
+        n = 0
+        short_ = True
     for _ in range(n):
         k = data.draw(st.integers(0, 11), label='k')
         if k <= 2:
@@ -112,6 +129,8 @@ def body(data, hist):
     tail = data.draw(st.lists(st.sampled_from(
         ('manual', 'move_dst', 'move_own_dst', 'push_src', 'evaluate')),
         max_size=3), label='tail')
+    if short_:
+        tail = []
     for t in tail:
         if t == 'manual':
             hist.apply({'op': 'manual', 'pr': A,
